@@ -25,6 +25,11 @@ static_assert(std::is_same_v<decltype(frg::make_tuple(1, 'c')), frg::tuple<int, 
 static_assert(std::is_same_v<decltype(frg::apply(std::declval<long (*)(int, char)>(), std::declval<frg::tuple<int, char>>())), long>, "tuple: apply returns the functor's result type");
 static_assert(std::is_same_v<decltype(frg::apply(std::declval<int &(*)(int, char)>(), std::declval<frg::tuple<int, char>>())), int &>, "tuple: apply returns a reference when the functor returns one (reference identity of the result)");
 static_assert(std::is_same_v<decltype(frg::apply(std::declval<int &(*)(const int &, const char &)>(), std::declval<const frg::tuple<int, char> &>())), int &>, "tuple: apply on a const lvalue tuple returns a reference when the functor returns one");
+// value category with which apply hands the elements of an rvalue tuple to the functor (std::apply / std::get semantics)
+namespace wit { struct CatProbe { char operator()(int &) const; long operator()(int &&) const; short operator()(const int &) const; }; }
+static_assert(std::is_same_v<decltype(frg::apply(wit::CatProbe{}, std::declval<frg::tuple<int &>>())), char>, "tuple: an lvalue-reference element of an rvalue tuple reaches the functor as an lvalue (it still belongs to the caller)");
+static_assert(std::is_same_v<decltype(frg::apply(wit::CatProbe{}, std::declval<frg::tuple<int>>())), long>, "tuple: a by-value element of an rvalue tuple reaches the functor as an rvalue");
+static_assert(std::is_same_v<decltype(frg::apply(wit::CatProbe{}, std::declval<const frg::tuple<int> &>())), short>, "tuple: an element of a const lvalue tuple reaches the functor as a const lvalue");
 
 // ---- guards (C12)
 static_assert(!std::is_copy_constructible_v<frg::unique_lock<wit::Mutex>>, "guards: unique_lock is not copy-constructible");
